@@ -49,6 +49,53 @@ def run_case(c):
     return None
 
 
+def _exec(con, st):
+    cur = con.execute(st["s"], st["params"]) if st.get("params") is not None else con.execute(st["s"])
+    rows = [[_norm(v) for v in row] for row in cur.fetchall()]
+    con.commit()
+    return rows
+
+
+def run_pair(c):
+    """a = the crate's rendering (inline, or parameterised with its values), b = the independently written explicit SQL: same fixture on two
+    fresh engines; result rows (RETURNING rows) and the table contents afterwards must agree.  -> None or (observed, expected)"""
+    ca, cb = sqlite3.connect(":memory:"), sqlite3.connect(":memory:")
+    try:
+        for con in (ca, cb):
+            for f in c["fixture"]:
+                con.execute(f)
+            con.commit()
+        try:
+            rb = _exec(cb, c["b"])
+            eb = None
+        except Exception as e:
+            rb, eb = None, str(e)
+        try:
+            ra = _exec(ca, c["a"])
+            ea = None
+        except Exception as e:
+            ra, ea = None, str(e)
+        desc = c["a"]["s"] + ((" with " + json.dumps(c["a"]["params"])) if c["a"].get("params") is not None else "")
+        if eb is not None and ea is None:
+            return ("accepted: " + desc, "ORACLE PROBLEM: the reference statement is rejected by SQLite %s (%s): %s" % (sqlite3.sqlite_version, eb, c["b"]["s"]))
+        if ea is not None and eb is None:
+            return ("SQLite %s: %s  <-  %s" % (sqlite3.sqlite_version, ea, desc), "accepted, like the explicit statement: " + c["b"]["s"])
+        if ea is not None and eb is not None:
+            return None   # both rejected by the engine (e.g. a constraint violation in both): nothing to compare
+        if not c.get("ordered"):
+            ra, rb = sorted(ra, key=repr), sorted(rb, key=repr)
+        if ra != rb:
+            return ("%s -> %s" % (desc, json.dumps(ra)[:600]), "%s -> %s" % (c["b"]["s"], json.dumps(rb)[:600]))
+        for q in c["snaps"]:
+            sa, sb = ca.execute(q).fetchall(), cb.execute(q).fetchall()
+            if sa != sb:
+                return ("after %s: %s -> %s" % (desc, q, json.dumps(sa)[:500]), "after %s: %s -> %s" % (c["b"]["s"], q, json.dumps(sb)[:500]))
+    finally:
+        ca.close()
+        cb.close()
+    return None
+
+
 def run_cases(lines, prop):
     """lines: stdout of `vreplay engine-cases`.  -> (witnesses, n_cases, n_checks)"""
     ws, n, nq = [], 0, 0
@@ -61,8 +108,12 @@ def run_cases(lines, prop):
             ws.append({"property": prop, "input": ln[:200], "observed": "case is not JSON: %s" % e, "expected": "a case"})
             continue
         n += 1
-        nq += len(c["checks"]) + len(c["steps"])
-        r = run_case(c)
+        if "fixture" in c:
+            nq += 2 + 2 * len(c["snaps"])
+            r = run_pair(c)
+        else:
+            nq += len(c["checks"]) + len(c["steps"])
+            r = run_case(c)
         if r is not None:
             ws.append({"property": prop, "input": c["label"], "observed": r[0], "expected": r[1]})
     return ws, n, nq
